@@ -83,7 +83,7 @@ fn main() {
             let mut run = Runner::new(&args);
             let bindir = std::path::PathBuf::from(args.req("bindir"));
             let work = std::path::PathBuf::from(args.req("work"));
-            csvrun::run(&mut run, &bindir, &work, args.num("seed", 1), args.num("n", 20), args.get("tier") != Some("thorough"));
+            csvrun::run(&mut run, &bindir, &work, args.num("seed", 1), args.num("n", 20), args.get("tier") != Some("thorough"), args.get("in"));
             run.finish();
         }
         "drift" => {
